@@ -38,6 +38,8 @@ type cfg struct {
 	MaxReq   int
 	Elapsed  time.Duration // -1 = retries disabled
 	DynHdr   bool
+	BrokenBody bool // upstream outcome 1 is "202 Accepted, but the response body cannot be read to its end" instead of a 503
+	CustomHdr  bool // a static custom header named like the first dynamic header (the dynamic one is then ignored, the others stay)
 	Dyn2     bool // two dynamic-header names (region, service); series with both, with one of them twice, with one, with none
 	Failures int  // failure budget of the upstream
 	BadUTF8  bool // dispatcher 0 sends a tag with invalid UTF-8
@@ -54,7 +56,7 @@ func (c cfg) per() int {
 }
 
 func (c cfg) String() string {
-	return fmt.Sprintf("D%d-B%d-s%d-m%d-r%d-el%v-dyn%v%v-f%d-bad%v-t%d-z%v-p%d", c.D, c.Batches, c.Slots, c.Merge, c.MaxReq, c.Elapsed, c.DynHdr, c.Dyn2, c.Failures, c.BadUTF8, c.Ticks, c.Compress, c.PerBatch)
+	return fmt.Sprintf("D%d-B%d-s%d-m%d-r%d-el%v-dyn%v%v-f%d-bad%v-t%d-z%v-p%d", c.D, c.Batches, c.Slots, c.Merge, c.MaxReq, c.Elapsed, c.DynHdr, c.Dyn2, c.Failures, c.BadUTF8, c.Ticks, c.Compress, c.PerBatch) + map[bool]string{true: "-brokenbody"}[c.BrokenBody] + map[bool]string{true: "-customhdr"}[c.CustomHdr]
 }
 
 type attempt struct {
@@ -122,12 +124,20 @@ func (u upstream) RoundTrip(req *http.Request) (*http.Response, error) {
 	u.r.attempts = append(u.r.attempts, attempt{strings.Join(parts, ";"), names, req.Header.Get("region"), req.Header.Get("service"), o, u.r.mock.Now()})
 	switch o {
 	case 1:
+		if u.r.c.BrokenBody {
+			return &http.Response{StatusCode: 202, Status: "202", Header: http.Header{}, Body: io.NopCloser(brokenReader{}), Request: req}, nil
+		}
 		return &http.Response{StatusCode: 503, Status: "503", Header: http.Header{}, Body: io.NopCloser(strings.NewReader("busy")), Request: req}, nil
 	case 2:
 		return nil, errors.New("connection reset")
 	}
 	return &http.Response{StatusCode: 202, Status: "202", Header: http.Header{}, Body: io.NopCloser(strings.NewReader("")), Request: req}, nil
 }
+
+// brokenReader: the upstream accepted the request, the connection broke while its (irrelevant) answer was read
+type brokenReader struct{}
+
+func (brokenReader) Read([]byte) (int, error) { return 0, errors.New("connection reset while reading the response") }
 
 func dpName(d, b, k int) string { return fmt.Sprintf("d%db%dk%d", d, b, k) }
 
@@ -151,7 +161,11 @@ func body(c cfg, r *run) func(*vsched.Exec) {
 		if c.Dyn2 {
 			dyn = []string{"region", "service"}
 		}
-		h, err := forwarderFromConfig(pool, nil, map[string]any{"consolidator-slots": c.Slots, "max-requests": c.MaxReq, "concurrent-merge": c.Merge, "compress": c.Compress, "compression-type": "lz4", "compression-level": 0, "max-request-elapsed-time": c.Elapsed, "flush-interval": time.Second, "dynamic-headers": dyn})
+		custom := map[string]string{}
+		if c.CustomHdr {
+			custom["region"] = "static"
+		}
+		h, err := forwarderFromConfig(pool, nil, map[string]any{"consolidator-slots": c.Slots, "max-requests": c.MaxReq, "concurrent-merge": c.Merge, "compress": c.Compress, "compression-type": "lz4", "compression-level": 0, "max-request-elapsed-time": c.Elapsed, "flush-interval": time.Second, "dynamic-headers": dyn, "custom-headers": custom})
 		if err != nil {
 			panic(err)
 		}
@@ -283,8 +297,8 @@ func check(c cfg, r *run, outcomes map[string]struct{}) func(*vsched.Exec, vsche
 			if b.ok > 0 {
 				return "resent-after-success", fmt.Sprintf("body %q was sent again after a successful attempt", a.body)
 			}
-			if a.outcome == 0 {
-				b.ok++
+			if a.outcome == 0 || (a.outcome == 1 && c.BrokenBody) {
+				b.ok++ // a 2xx status is a delivery, whatever happens to the response body
 			} else {
 				b.fails++
 			}
@@ -349,6 +363,12 @@ func check(c cfg, r *run, outcomes map[string]struct{}) func(*vsched.Exec, vsche
 					var d, b, k int
 					fmt.Sscanf(n, "d%db%dk%d", &d, &b, &k)
 					for hn, got := range map[string]string{"region": a.region, "service": a.service} {
+						if c.CustomHdr && hn == "region" {
+							if got != "static" {
+								return "wrong-dynamic-header", fmt.Sprintf("series %s travelled with header region=%q although region is configured as the static header \"static\"", n, got)
+							}
+							continue
+						}
 						var vals []string
 						for _, t := range dyn2Tags[(d+b+k)%len(dyn2Tags)] {
 							if strings.HasPrefix(t, hn+":") {
@@ -410,6 +430,8 @@ func configs() []cfg {
 		{D: 2, Batches: 1, Slots: 2, Merge: 1, MaxReq: 2, Elapsed: 3 * time.Second, DynHdr: true, Failures: 0, Ticks: 2},
 		{D: 2, Batches: 1, Slots: 1, Merge: 1, MaxReq: 1, Elapsed: 3 * time.Second, BadUTF8: true, Failures: 0, Ticks: 2},
 		{D: 1, Batches: 1, PerBatch: 4, Slots: 1, Merge: 1, MaxReq: 2, Elapsed: 3 * time.Second, Dyn2: true, Failures: 0, Ticks: 1},
+		{D: 1, Batches: 1, PerBatch: 4, Slots: 1, Merge: 1, MaxReq: 2, Elapsed: 3 * time.Second, Dyn2: true, CustomHdr: true, Failures: 0, Ticks: 1},
+		{D: 1, Batches: 2, Slots: 1, Merge: 1, MaxReq: 1, Elapsed: 3 * time.Second, Failures: 2, Ticks: 1, BrokenBody: true},
 		// two compressed bodies of one flush in flight together, one of them retried
 		{D: 1, Batches: 1, PerBatch: 2, Slots: 1, Merge: 1, MaxReq: 2, Elapsed: 3 * time.Second, DynHdr: true, Failures: 1, Ticks: 1, Compress: true},
 	}
